@@ -168,8 +168,24 @@ def case_st(max_ops):
     return build()
 
 
+@st.composite
+def deep_case(draw):
+    """a producer far ahead: dozens of publications retained, consumers creeping through them at unaligned times"""
+    n = draw(st.integers(1, 3))
+    cons = [{"chain": draw(st.sampled_from([[], [], [["scale", 1.0]], [["dfix", 45]], [["dfix", 7]]]))} for _ in range(n)]
+    ops = [["push", 0]] + [["push", draw(st.sampled_from([10, 30, 60, 7]))] for _ in range(draw(st.integers(36, 80)))]
+    for _ in range(draw(st.integers(10, 60))):
+        if draw(st.integers(0, 9)) < 2:
+            ops.append(["push", draw(st.sampled_from([10, 30, 7]))])
+        else:
+            d = draw(st.sampled_from([37, 64, 97, 131]))
+            ops.append(["pull", draw(st.integers(0, 2)), draw(st.integers(1, 4)), d])
+    return {"consumers": cons, "ops": ops}
+
+
 def parts():
     return [
         Part("machines", check, strategy=case_st(60), budget={"quick": 1200, "thorough": 16000}),
         Part("long_runs", check, strategy=case_st(250), budget={"quick": 100, "thorough": 8000}),
+        Part("deep_history", check, strategy=deep_case(), budget={"quick": 150, "thorough": 6000}),
     ]
